@@ -98,7 +98,7 @@ def run(ctx):
         for wa in (True, False):
             for lever in ((True, False) if kind != "BodyVelocity" else (False,)):
                 for rates in ((True, False) if kind == "NedVelocity" else (False,)):
-                    _one(ctx, py, kind, wa, lever, rates)
+                    ctx.guard(_one, ctx, py, kind, wa, lever, rates)
     ctx.guard(_generators, ctx, py)
 
     # frame of the modules under contract (no state kept between calls, arguments left alone): same analysis as C19
@@ -287,16 +287,26 @@ def _one(ctx, py, kind, wa, lever, rates):
     eq_spec(ctx, "C06.%s.residual" % tag, syms, z_code, z_spec, BOX, py=py, cos_nonneg=COSNN, tol=1e-7)
 
     # ---- shapes and R ---------------------------------------------------------------------------------
-    with rdomain(py):
-        (z, H, R), em = _run_cm(py, kind, {s.name: RSym(s) for s in syms}, wa, lever, rates)
-    Hm = np.asarray(H, dtype=object)
-    Rm = np.asarray(R, dtype=object)
-    ok_shape = len(z) == k_rows and Hm.shape == (k_rows, n) and Rm.shape == (k_rows, k_rows)
-    ctx.ob("C06.%s.shapes" % tag, "c", ok_shape, "symbolic-execution", 0.0,
-           "len(z)=%d, H %s, R %s; expected %d, (%d, %d)" % (len(z), Hm.shape, Rm.shape, k_rows, k_rows, n))
-    okR = ok_shape and all(sp.simplify(sp.sympify(unwrap(Rm[i, j])) - (sd ** 2 if i == j else 0)) == 0
-                           for i in range(k_rows) for j in range(k_rows))
-    ctx.ob("C06.%s.R_is_sd2_identity" % tag, "a", bool(okR), "symbolic-execution", 0.0, "R = sd^2 * I_%d" % k_rows)
+    from pvx import paths as _paths
+    from pvx.claims import const_point as _const_point
+
+    def _shapes_run():
+        with rdomain(py):
+            (z, H, R), em = _run_cm(py, kind, {s.name: RSym(s) for s in syms}, wa, lever, rates)
+        return z, H, R
+    sruns = _paths.explore_claim(_shapes_run)          # value-dependent branches of the code: every path an input can take
+    for ks, (sconds, (z, H, R)) in enumerate(sruns):
+        if sconds and not _paths.witnesses(sconds, syms, full_domain(py, BOX), _const_point(py), ctx.seed, field.DEFAULT_BOX):
+            continue
+        sfx = ".path%d" % ks if len(sruns) > 1 else ""
+        Hm = np.asarray(H, dtype=object)
+        Rm = np.asarray(R, dtype=object)
+        ok_shape = len(z) == k_rows and Hm.shape == (k_rows, n) and Rm.shape == (k_rows, k_rows)
+        ctx.ob("C06.%s.shapes%s" % (tag, sfx), "c", ok_shape, "symbolic-execution", 0.0,
+               "len(z)=%d, H %s, R %s; expected %d, (%d, %d)" % (len(z), Hm.shape, Rm.shape, k_rows, k_rows, n))
+        okR = ok_shape and all(sp.simplify(sp.sympify(unwrap(Rm[i, j])) - (sd ** 2 if i == j else 0)) == 0
+                               for i in range(k_rows) for j in range(k_rows))
+        ctx.ob("C06.%s.R_is_sd2_identity%s" % (tag, sfx), "a", bool(okR), "symbolic-execution", 0.0, "R = sd^2 * I_%d" % k_rows)
 
     # ---- H is the Jacobian of z w.r.t. the error state ----------------------------------------------------
     xs = list(X9[:n])
